@@ -64,7 +64,57 @@ void c17_reset_record(void) {
     varintExternalPutFixedWidth(C17_REC + 32, 5000000000ULL, VARINT_WIDTH_40B);
     varintExternalPutFixedWidth(C17_REC + 37, 9, VARINT_WIDTH_24B);
 }
+/* shared dictionary: 600 entries (above the sizes at which a lookup might take a different path), built once */
+#define C17_SHD_ENTRIES 600
+#define C17_SHD_Q 10
+static varintDict *C17_SHDICT;
+static uint64_t C17_SHD_SRC[C17_SHD_ENTRIES];
+static uint64_t C17_SHD_QUERY[2][C17_SHD_Q];
+const void *C17_SHREG[C17_NSHREG];
+size_t C17_SHREG_BYTES[C17_NSHREG];
+static void c17_init_shared_dict(void) {
+    for (size_t i = 0; i < C17_SHD_ENTRIES; i++) {
+        C17_SHD_SRC[i] = 100000 + 7 * i;
+    }
+    /* thread 0 alternates between the low and the high end, thread 1 walks the middle outwards */
+    static const uint32_t QI[2][C17_SHD_Q] = {{3, 590, 10, 580, 299, 300, 1, 598, 150, 450}, {300, 280, 320, 200, 400, 100, 500, 20, 570, 301}};
+    for (int t = 0; t < 2; t++) {
+        for (int i = 0; i < C17_SHD_Q; i++) {
+            C17_SHD_QUERY[t][i] = C17_SHD_SRC[QI[t][i]];
+        }
+    }
+    C17_SHDICT = varintDictCreate();
+    if (!C17_SHDICT || varintDictBuild(C17_SHDICT, C17_SHD_SRC, C17_SHD_ENTRIES) != 0) {
+        abort();
+    }
+    C17_SHREG[0] = C17_SHDICT;
+    C17_SHREG_BYTES[0] = sizeof *C17_SHDICT;
+    C17_SHREG[1] = C17_SHDICT->values;
+    C17_SHREG_BYTES[1] = (size_t)C17_SHDICT->capacity * 8;
+    C17_SHREG[2] = C17_SHD_QUERY[0];
+    C17_SHREG_BYTES[2] = sizeof C17_SHD_QUERY[0];
+    C17_SHREG[3] = C17_SHD_QUERY[1];
+    C17_SHREG_BYTES[3] = sizeof C17_SHD_QUERY[1];
+}
+/* ---- shared-dictionary operations: lookups and an encode through the one shared `const varintDict *` */
+static void o_bytes(c17_ctx *c, const void *p, size_t n);
+static void o_u64(c17_ctx *c, uint64_t v);
+static void op_shdict(c17_ctx *c) {
+    const varintDict *d = C17_SHDICT;
+    const uint64_t *q = C17_SHD_QUERY[c->arg & 1];
+    for (int i = 0; i < C17_SHD_Q; i++) {
+        int32_t f = varintDictFind(d, q[i]);
+        o_u64(c, (uint64_t)(int64_t)f);
+        o_u64(c, f >= 0 ? varintDictLookup(d, (uint32_t)f) : 0);
+    }
+    o_u64(c, (uint64_t)(int64_t)varintDictFind(d, 99999)); /* absent */
+    size_t w = varintDictEncodeWithDict(c->enc, d, q, C17_SHD_Q);
+    o_u64(c, w);
+    o_bytes(c, c->enc, w < 16384 ? w : 0);
+    o_u64(c, varintDictEncodedSizeWithDict(d, C17_SHD_Q));
+}
 void c17_init_inputs(void) {
+    c17_init_shared_dict();
     for (size_t i = 0; i < C17_MEDIUM_N; i++) {
         C17_MEDIUM[0][i] = 1000000 + (i * 7919) % 900;          /* dense, ~900 distinct values */
         C17_MEDIUM[1][i] = i * 5 + i % 3;                       /* strictly increasing, < 65536 */
@@ -635,7 +685,11 @@ const c17_op C17_OPS[] = {
     {"record: tagged 3-byte slot at +19", op_record, 3, 0},
     {"record: external 5-byte slot at +32", op_record, 4, 0},
     {"record: external 3-byte slot at +37", op_record, 5, 0},
+    /* shared-dictionary operations (see c17_ops.h) */
+    {"shared dict[600]: find/lookup/encode, queries at both ends", op_shdict, 0, 0},
+    {"shared dict[600]: find/lookup/encode, queries from the middle outwards", op_shdict, 1, 0},
 };
+const int C17_NSHD = 2;
 const int C17_NREC = 6;
-const int C17_NALL = (int)(sizeof C17_OPS / sizeof *C17_OPS) - 6;
-const int C17_NOPS = (int)(sizeof C17_OPS / sizeof *C17_OPS) - 66;
+const int C17_NALL = (int)(sizeof C17_OPS / sizeof *C17_OPS) - 6 - 2;
+const int C17_NOPS = (int)(sizeof C17_OPS / sizeof *C17_OPS) - 66 - 2;
